@@ -8,7 +8,7 @@ in the batch writer; the new row is the WHOLE old row as read, with the assigned
 The full statement — every interleaving of the phases of mutations of one row gives the result of
 running the acknowledged mutations one after another in some order — is FALSE of the code
 (DESIGN §4 site 23): `C16_breaks_lostUpdate`, `C16_breaks_lostRoomMove`,
-`C16_breaks_duplicatedSingleReference`. What holds, for any number of mutations and any schedule:
+`C16_breaks_duplicatedSingleReference`, `C16_breaks_staleReferenceRemoval`. What holds, for any number of mutations and any schedule:
 a schedule in which no write happens while another mutation of the same row is pending (i.e. every read
 follows the previous write of the same row) gives exactly the serial result in the order of the writes
 (`C16_serial_when_reads_follow_writes`, = `C16_partial`); mutations of different rows never interfere and
@@ -110,6 +110,23 @@ theorem C16_breaks_duplicatedSingleReference :
     (view (exec opsTwoPets init bothReadsThenWrites).db 1).2 = [(2, 2), (2, 3)] ∧
     (view (serial opsTwoPets init [(0, 1), (1, 2)]) 1).2 = [(2, 3)] ∧
     (view (serial opsTwoPets init [(1, 2), (0, 1)]) 1).2 = [(2, 2)] := by decide
+
+/-- mutation 0 sets the single-valued reference and field 1 := 9, mutation 1 removes the reference
+    (`pet: null`) and sets field 1 := 6 -/
+def opsPetNull : List Op :=
+  [{ key := 1, sets := [(1, 9)], room := none, adds := [], pet := some (some 4) },
+   { key := 1, sets := [(1, 6)], room := none, adds := [], pet := some none }]
+
+/-- **C16_breaks_staleReferenceRemoval.** `R₁ R₀ W₀ W₁`: the removal was planned when there was nothing
+    to remove and is written after the other mutation has set the reference: the final row has the field
+    value of mutation 1 (which came last) together with the reference of mutation 0 — a mixed state:
+    the order 0;1 leaves no reference, the order 1;0 leaves field 1 = 9. -/
+theorem C16_breaks_staleReferenceRemoval :
+    (exec opsPetNull init [.r 1, .r 0, .v 0, .w 0, .v 1, .w 1]).err = false ∧
+    view (exec opsPetNull init [.r 1, .r 0, .v 0, .w 0, .v 1, .w 1]).db 1 = ((some (1, [(1, 6), (2, 0)]), [(2, 4)]) : View) ∧
+    view (serial opsPetNull init [(0, 1), (1, 2)]) 1 = ((some (1, [(1, 6), (2, 0)]), []) : View) ∧
+    view (serial opsPetNull init [(1, 1), (0, 2)]) 1 = ((some (1, [(1, 9), (2, 0)]), [(2, 4)]) : View) :=
+  ⟨by decide, by decide, by decide, by decide⟩
 
 /-! ### two writes of different fields: the exact set of non-serialisable schedules -/
 
